@@ -87,7 +87,7 @@ def run(w: World, rep: Report):
              'hence strictly shorter', floor=7)
     rep.rule('C12.R4', 'operand shape of every decompiler arm equals the shape the VM handler reads', floor=92)
     rep.rule('C12.R5', 'every operand byte reaches the listing through an injective formatter', floor=30)
-    rep.rule('C12.R6', 'the domain an arm prints is accepted by the encoder the compiler uses for that op', floor=20)
+    rep.rule('C12.R6', 'the domain an arm prints is accepted by the encoder the compiler uses for that op', floor=8)
     rep.rule('C12.R7', 'Tape.read bounds (shared with C07.R2): a read never passes the end', floor=1)
     fi, cfg, kinds, tape_var, ctor, m, arms = dec_arms(w)
     rep.covered('functions', fi.key)
@@ -143,7 +143,11 @@ def run(w: World, rep: Report):
         seqs = tape_reads(w, h)
         toks = {tuple(norm_token(r) for r in s) for s in seqs}
         if len(toks) != 1:
-            raise AnalysisError(f'{h.name}: tape-read shape differs between paths: {sorted(toks)}')
+            rep.check('C12.R4', f'functions.{h.name}|same-shape-on-every-path', False, line=h.node.lineno,
+                      file='tapescript/functions.py',
+                      why=f'{h.name} consumes different operand bytes on different normal paths ({sorted(toks)}): on some '
+                      f'path an operand byte is left on the tape and executed as the next opcode; no listing can agree')
+            continue
         vm_shapes[name] = list(toks)[0]
     nop_h = w.repo.func(w.nop.module, w.nop.name)
     nop_shape = list({tuple(norm_token(r) for r in s) for s in tape_reads(w, nop_h)})
